@@ -277,7 +277,9 @@ Section Spec.
     Record env := mkEnv {
       e_split : list M -> nat -> M -> M -> M;       (* factors, mode: the ADMM least-squares step of that mode *)
       e_conv : nat -> nat -> nat -> M -> M -> M -> bool;   (* outer iteration, mode, inner iteration: residual test *)
-      e_stop : nat -> list M -> list M -> bool      (* outer iteration, factors, duals: outer stopping rule *)
+      e_stop : nat -> list M -> list M -> bool;     (* outer iteration, factors, duals: outer stopping rule *)
+      e_errdef : nat -> list M -> bool              (* mode, factors: `mttkrp(mode) * factors[-1]` is defined (the shapes broadcast);
+                                                       consulted only when the last mode was not updated *)
     }.
 
     Definition update_mode (E : env) (inner it : nat)
@@ -293,22 +295,38 @@ Section Spec.
       | m :: r => rbind (update_mode E inner it st m) (fun st' => sweep E inner it st' r)
       end.
 
-    Fixpoint outer_loop (E : env) inner (fuel it : nat) (modes : list nat) (st : list M * list M)
+    (* after a sweep: `iprod = sum(mttkrp * factors[-1] ...)` with the MTTKRP left over from the LAST updated mode.
+       - no mode updated (only reachable through a duplicated last mode in fixed_modes, e.g. [0,1,2,2]): `mttkrp` is unbound,
+         UnboundLocalError;
+       - the last mode n-1 updated (modes is increasing, so it is then the last element): always defined;
+       - otherwise (e.g. fixed_modes = [2,2] on order 3): defined iff the shapes happen to broadcast - numerical content, e_errdef. *)
+    Definition err_defined (E : env) (n : nat) (modes : list nat) (fs : list M) : bool :=
+      match modes with
+      | [] => false
+      | _ :: _ => if memb (n - 1) modes then true else e_errdef E (last modes 0) fs
+      end.
+
+    Fixpoint outer_loop (E : env) (n : nat) inner (fuel it : nat) (modes : list nat) (st : list M * list M)
       : res (list M * list M) :=
       match fuel with
       | 0 => Ok st
       | S f =>
           rbind (sweep E inner it st modes) (fun st' =>
-          if e_stop E it (fst st') (snd st') then Ok st' else outer_loop E inner f (S it) modes st')
+          if err_defined E n modes (fst st') then
+            (if e_stop E it (fst st') (snd st') then Ok st' else outer_loop E n inner f (S it) modes st')
+          else Err)
       end.
 
     (* constrained_parafac on an order-n tensor: validate first (order = 0; raises on a double constraint),
-       initialise, iterate, return the factors *)
+       initialise, iterate, return the factors.  A (user) CP tensor whose number of factors is not n cannot be multiplied
+       with the unfoldings: as soon as a sweep is executed the code raises (shapes not aligned / IndexError; coincidences
+       through modes of size 1 are outside the model); with outer budget 0 it is returned as it is. *)
     Definition constrained_cp (E : env) (n : nat) (i0 : init) (fixed : list nat)
                (n_outer n_inner : nat) (zero : M) : res (list M) :=
       rbind (val 0) (fun _ =>
       rbind (initialize i0) (fun fs =>
-      rbind (outer_loop E n_inner n_outer 0 (modes_list n fixed) (fs, map (fun _ => zero) fs))
+      if (0 <? n_outer) && negb (Nat.eqb (length fs) n) then Err else
+      rbind (outer_loop E n n_inner n_outer 0 (modes_list n fixed) (fs, map (fun _ => zero) fs))
             (fun st => Ok (fst st)))).
   End Loops.
 End Spec.
